@@ -25,37 +25,100 @@ pub struct Workload {
     /// per thread: (op kind, jitter spins)
     /// kinds: 0 encaps+decaps, 1 decaps unauthorized, 2 pke round-trip, 3 header round-trip,
     ///        4 keygen + use, 5 refresh + use, 6 pke unauthorized, 7 header with aad mismatch,
-    ///        8 administration on the caller's master key: rekey + prune of rights nobody encrypts for
+    ///        8 administration on the caller's master key: rekey + prune of rights nobody encrypts for,
+    ///        9 decapsulation of a degenerate parsed encapsulation (no component / no trap)
+    /// Threads 2,3, 6,7, ... work with a second master key (same names, other attribute ids).
     pub threads: Vec<Vec<(u8, u16)>>,
 }
 
 fn strategy() -> impl Strategy<Value = Workload> {
-    proptest::collection::vec(proptest::collection::vec((0u8..9, prop_oneof![Just(0u16), 0u16..200, 0u16..5000]), 4..30), 2..=16).prop_map(|threads| Workload { threads })
+    proptest::collection::vec(proptest::collection::vec((0u8..10, prop_oneof![Just(0u16), 0u16..200, 0u16..5000]), 4..30), 2..=16).prop_map(|threads| Workload { threads })
+}
+
+/// What a call returned: Ok(Some) / Ok(None) / Err / panic.
+#[derive(Clone, Copy, Debug, PartialEq, Eq)]
+pub enum Alone {
+    Some,
+    None,
+    Err,
+    Panic,
+}
+
+fn outcome(cc: &Covercrypt, usk: &UserSecretKey, enc: &XEnc) -> Alone {
+    match std::panic::catch_unwind(std::panic::AssertUnwindSafe(|| cc.decaps(usk, enc))) {
+        Ok(Ok(Some(_))) => Alone::Some,
+        Ok(Ok(None)) => Alone::None,
+        Ok(Err(_)) => Alone::Err,
+        Err(_) => {
+            let _ = crate::runner::take_panic();
+            Alone::Panic
+        }
+    }
+}
+
+pub struct Tenant {
+    pub msk: Mutex<MasterSecretKey>,
+    pub mpk: MasterPublicKey,
+    /// degenerate encapsulations that parse, with what decapsulating them returns on an instance
+    /// nobody else uses
+    pub degenerate: Vec<(XEnc, Alone)>,
 }
 
 pub struct Shared {
     pub cc: Covercrypt,
-    pub msk: Mutex<MasterSecretKey>,
-    pub mpk: MasterPublicKey,
+    pub tenants: [Tenant; 2],
     pub tags: Mutex<HashSet<Vec<u8>>>,
     pub nonces: Mutex<HashSet<Vec<u8>>>,
     pub progress: AtomicU64,
     pub failed: Mutex<Option<Fail>>,
 }
 
-fn shared() -> Result<Shared, Fail> {
+/// One master key; `second` declares the same names in another order, so that the attribute ids
+/// (and with them every right) differ between the two tenants of the instance.
+fn tenant(second: bool) -> Result<Tenant, Fail> {
+    // built and probed on a private instance: nothing here may disturb the shared one
     let cc = Covercrypt::default();
     let e = |e: Error| Fail::new("fixture-failed", short_err(&e));
     let (mut msk, _) = cc.setup().map_err(e)?;
-    msk.access_structure.add_hierarchy("SEC".into()).map_err(e)?;
-    msk.access_structure.add_attribute(qa("SEC", "LOW"), hint(false), None).map_err(e)?;
-    msk.access_structure.add_attribute(qa("SEC", "TOP"), hint(true), Some("LOW")).map_err(e)?;
+    let sec = |msk: &mut MasterSecretKey| -> Result<(), Error> {
+        msk.access_structure.add_hierarchy("SEC".into())?;
+        msk.access_structure.add_attribute(qa("SEC", "LOW"), hint(false), None)?;
+        msk.access_structure.add_attribute(qa("SEC", "TOP"), hint(true), Some("LOW"))
+    };
+    if !second {
+        sec(&mut msk).map_err(e)?;
+    }
     msk.access_structure.add_anarchy("DPT".into()).map_err(e)?;
-    msk.access_structure.add_attribute(qa("DPT", "FIN"), hint(false), None).map_err(e)?;
-    msk.access_structure.add_attribute(qa("DPT", "HR"), hint(false), None).map_err(e)?;
-    msk.access_structure.add_attribute(qa("DPT", "ADM"), hint(false), None).map_err(e)?;
+    for a in if second { ["FIN", "ADM", "HR"] } else { ["FIN", "HR", "ADM"] } {
+        msk.access_structure.add_attribute(qa("DPT", a), hint(false), None).map_err(e)?;
+    }
+    if second {
+        sec(&mut msk).map_err(e)?;
+    }
     let mpk = cc.update_msk(&mut msk).map_err(e)?;
-    Ok(Shared { cc, msk: Mutex::new(msk), mpk, tags: Mutex::new(HashSet::new()), nonces: Mutex::new(HashSet::new()), progress: AtomicU64::new(0), failed: Mutex::new(None) })
+    // degenerate but parsable encapsulations, classic and hybridized
+    let mut degenerate = vec![];
+    let probe = cc.generate_user_secret_key(&mut msk, &AccessPolicy::parse("SEC::TOP && DPT::FIN").unwrap()).map_err(e)?;
+    for pol in ["SEC::LOW && DPT::FIN", "SEC::TOP && DPT::FIN"] {
+        let (_, enc) = cc.encaps(&mpk, &AccessPolicy::parse(pol).unwrap()).map_err(e)?;
+        let w = crate::wire::WXEnc::decode(&ser(&enc)?).map_err(|e| Fail::new("codec-cannot-decode-xenc", e))?;
+        let mut no_component = w.clone();
+        no_component.encs.clear();
+        let mut no_trap = w.clone();
+        no_trap.c.clear();
+        for v in [no_component, no_trap] {
+            if let Ok(x) = de::<XEnc>(&v.encode()) {
+                // on an instance of its own: a panicking call poisons the instance it ran on
+                let alone = outcome(&Covercrypt::default(), &probe, &x);
+                degenerate.push((x, alone));
+            }
+        }
+    }
+    Ok(Tenant { msk: Mutex::new(msk), mpk, degenerate })
+}
+
+fn shared() -> Result<Shared, Fail> {
+    Ok(Shared { cc: Covercrypt::default(), tenants: [tenant(false)?, tenant(true)?], tags: Mutex::new(HashSet::new()), nonces: Mutex::new(HashSet::new()), progress: AtomicU64::new(0), failed: Mutex::new(None) })
 }
 
 fn spin(n: u16) {
@@ -82,8 +145,19 @@ fn tag_of(enc: &XEnc) -> Result<Vec<u8>, Fail> {
     Ok(b[..16].to_vec())
 }
 
+/// the part of the shared state one thread works with
+struct ShView<'a> {
+    msk: &'a Mutex<MasterSecretKey>,
+    mpk: &'a MasterPublicKey,
+    degenerate: &'a [(XEnc, Alone)],
+    tags: &'a Mutex<HashSet<Vec<u8>>>,
+    nonces: &'a Mutex<HashSet<Vec<u8>>>,
+    progress: &'a AtomicU64,
+}
+
 fn thread_body(sh: &Shared, t: usize, ops: &[(u8, u16)]) -> Result<(), Fail> {
     let cc = &sh.cc;
+    let sh = ShView { msk: &sh.tenants[(t / 2) % 2].msk, mpk: &sh.tenants[(t / 2) % 2].mpk, degenerate: &sh.tenants[(t / 2) % 2].degenerate, tags: &sh.tags, nonces: &sh.nonces, progress: &sh.progress };
     let pol_auth = AccessPolicy::parse(if t % 2 == 0 { "SEC::TOP && DPT::FIN" } else { "SEC::LOW && DPT::FIN" }).unwrap();
     let pol_enc = AccessPolicy::parse(if t % 2 == 0 { "SEC::TOP && DPT::FIN" } else { "DPT::FIN && SEC::LOW || DPT::FIN" }).unwrap();
     let pol_other = AccessPolicy::parse("DPT::HR").unwrap();
@@ -153,6 +227,25 @@ fn thread_body(sh: &Shared, t: usize, ops: &[(u8, u16)]) -> Result<(), Fail> {
                     _ => return Err(Fail::new("concurrent-result-differs:new-key", ctx("freshly generated key cannot open"))),
                 }
             }
+            9 => {
+                // a degenerate encapsulation that parses: the call must return what it returns
+                // alone and, whatever that is, leave the instance usable for everybody
+                if !sh.degenerate.is_empty() {
+                    let (x, alone) = &sh.degenerate[(i + t) % sh.degenerate.len()];
+                    let got = outcome(cc, &my_key, x);
+                    // taking the instance's lock panics iff a panicking call poisoned it
+                    let poisoned = std::panic::catch_unwind(std::panic::AssertUnwindSafe(|| drop(cc.rng()))).is_err();
+                    if poisoned {
+                        let _ = crate::runner::take_panic();
+                    }
+                    if got != *alone && !(matches!(got, Alone::None | Alone::Err) && matches!(alone, Alone::None | Alone::Err)) {
+                        return Err(Fail::new("concurrent-result-differs:degenerate-decaps", format!("{}: returned {got:?}, alone {alone:?}", ctx("decaps of a degenerate encapsulation"))));
+                    }
+                    if poisoned {
+                        return Err(Fail::new("instance-poisoned-by-one-call", format!("{}: the call returned {got:?} and left the instance's lock poisoned: every later call of every thread fails", ctx("decaps of a degenerate encapsulation"))));
+                    }
+                }
+            }
             8 => {
                 // rotates {ADM} x SEC and the rights without DPT; no policy of this workload
                 // encrypts for them, so every other oracle is unaffected
@@ -194,7 +287,7 @@ pub enum RunResult {
 
 /// Execute one workload on detached threads so that a deadlock does not take the harness with it.
 pub fn execute(w: &Workload) -> RunResult {
-    let sh = match shared() {
+    let sh = match crate::runner::guarded(shared) {
         Ok(s) => Arc::new(s),
         Err(f) => return RunResult::Done(Err(f)),
     };
@@ -271,13 +364,13 @@ pub fn run(ctx: &Ctx, col: &Collector) -> Meta {
                 col.class_n("ops-executed", kinds.len() as u64);
                 col.class(&format!("threads:{}", if nthreads >= 8 { "8-16" } else if nthreads >= 4 { "4-7" } else { "2-3" }));
                 if nthreads >= 4 && sym >= 2 {
-                    let mut multiset = [0u32; 9];
+                    let mut multiset = [0u32; 10];
                     for k in &kinds {
                         multiset[*k as usize] += 1;
                     }
                     col.class("nontrivial-workloads");
                     if col.nontrivial(&(nthreads, multiset)) {
-                        col.sample(|| json!({"threads": nthreads, "ops_per_kind": multiset, "kinds": "0 encaps+decaps, 1 unauthorized decaps, 2 pke, 3 header, 4 keygen, 5 refresh, 6 pke unauthorized, 7 header wrong aad, 8 rekey+prune"}));
+                        col.sample(|| json!({"threads": nthreads, "ops_per_kind": multiset, "kinds": "0 encaps+decaps, 1 unauthorized decaps, 2 pke, 3 header, 4 keygen, 5 refresh, 6 pke unauthorized, 7 header wrong aad, 8 rekey+prune, 9 degenerate decaps"}));
                     }
                 }
             }
@@ -309,7 +402,7 @@ pub fn run(ctx: &Ctx, col: &Collector) -> Meta {
     }
     Meta {
         level: "exploration",
-        rule: "generated workloads of 2-16 threads x 4-30 operations (encaps+decaps, unauthorized decaps, PKE encrypt/decrypt, header generate/decrypt with matching and wrong authentication data, key generation, refresh, rekey + prune on the caller's master key) with generated spin / yield jitter, all threads released by a barrier on one shared Covercrypt instance (master key behind the caller's own mutex, distinct key objects per thread); every result must equal the sequential oracle, tags and AEAD nonces must be distinct across threads, no call may panic (poisoned lock), and the workload must finish: no progress for 8 s with no CPU use is a deadlock. Non-trivial = workload with >= 4 threads and >= 2 PKE / header operations; distinct by (thread count, multiset of operation kinds)".into(),
+        rule: "generated workloads of 2-16 threads x 4-30 operations (encaps+decaps, unauthorized decaps, PKE encrypt/decrypt, header generate/decrypt with matching and wrong authentication data, key generation, refresh, rekey + prune on the caller's master key, decapsulation of parsed encapsulations without component / without trap) with generated spin / yield jitter, all threads released by a barrier on one shared Covercrypt instance (two master keys declaring the same names with different attribute ids, each behind the caller's own mutex and used by half of the threads; distinct key objects per thread); every result must equal the sequential oracle, tags and AEAD nonces must be distinct across threads, no call may panic (poisoned lock), and the workload must finish: no progress for 8 s with no CPU use is a deadlock. Non-trivial = workload with >= 4 threads and >= 2 PKE / header operations; distinct by (thread count, multiset of operation kinds)".into(),
         exhaustive: false,
         assumptions: vec!["schedules are sampled under the real OS scheduler (contention + jitter), not owned: a defect confined to one rare interleaving can be missed".into()],
     }
